@@ -3,5 +3,8 @@
 here=$(cd "$(dirname "$0")" && pwd)
 cd "$here"
 [ "$here" != /verif ] && export VERIF_DIR="$here"
+# a background run started with `vp run --with-repo` gets its own copy of /repo: check that copy and
+# keep replays and evidence of that run inside its own snapshot of /verif
+[ -n "$VP_RUN_REPO" ] && [ -d "$VP_RUN_REPO" ] && export SIMCHECK_REPO="$VP_RUN_REPO" SIMCHECK_OUT="$here"
 [ -x bin/simcheck ] || ./setup.sh >/dev/null 2>&1 || { echo "setup failed"; exit 2; }
 exec ./bin/simcheck run --property "$1" --tier "${2:-${VERIF_TIER:-quick}}"
